@@ -1,6 +1,7 @@
 package main
 
 import (
+	"bytes"
 	"debug/elf"
 	"encoding/binary"
 	"fmt"
@@ -35,6 +36,11 @@ type ownKernel struct {
 	Truth   expect
 	Shifted *expect
 	Class   string
+	// where the kernel symbol's bytes and (descriptor-based kernels) its 64-byte
+	// descriptor sit in the file image; used by the history cases to patch an
+	// image in place
+	FileOff   uint64
+	KDFileOff uint64
 }
 
 // extractOwn parses a shipped code object with debug/elf and the harness' own
@@ -49,6 +55,20 @@ func extractOwn(path string) (out []ownKernel, textAddr uint64, err error) {
 		return nil, 0, err
 	}
 	defer f.Close()
+	return extractOwnELF(f)
+}
+
+// extractOwnBytes is extractOwn over an in-memory image (the history cases
+// judge every load against the parse of the bytes the loader was given).
+func extractOwnBytes(image []byte) (out []ownKernel, textAddr uint64, err error) {
+	f, err := elf.NewFile(bytes.NewReader(image))
+	if err != nil {
+		return nil, 0, err
+	}
+	return extractOwnELF(f)
+}
+
+func extractOwnELF(f *elf.File) (out []ownKernel, textAddr uint64, err error) {
 	text := f.Section(".text")
 	if text == nil {
 		return nil, 0, fmt.Errorf("no .text")
@@ -94,9 +114,10 @@ func extractOwn(path string) (out []ownKernel, textAddr uint64, err error) {
 			return nil, 0, fmt.Errorf("symbol %s outside .text", s.Name)
 		}
 		b := td[off : off+s.Size]
-		k := ownKernel{Name: s.Name, Size: s.Size}
+		k := ownKernel{Name: s.Name, Size: s.Size, FileOff: text.Offset + off}
 		if d, ok := kd[s.Name]; ok {
 			o := d.Value - ro.Addr
+			k.KDFileOff = ro.Offset + o
 			w := rd[o : o+64]
 			var ns, nv *uint64
 			if v, ok := abs[s.Name+".numbered_sgpr"]; ok {
